@@ -237,7 +237,7 @@ fn jobs_for(prop: &str, thorough: bool) -> Vec<Job> {
     let mut jobs = jobs_for_inner(prop, thorough);
     let cache_family = !matches!(prop, "C08" | "C09" | "C18");
     if matches!(prop, "C01" | "C02" | "C04" | "C05" | "C06" | "C07" | "C11" | "C12" | "C14" | "C15" | "C17" | "C19") {
-        jobs.push(Job { engine: "variants", build: "", asan: false, workers: 16, cases: if thorough { 4000 } else { 400 }, timeout_s: 3600 });
+        jobs.push(Job { engine: "variants", build: "", asan: false, workers: 16, cases: if thorough { 2000 } else { 400 }, timeout_s: 3600 });
         if matches!(prop, "C06" | "C07" | "C12" | "C17") {
             jobs.push(Job { engine: "variants", build: "", asan: true, workers: 16, cases: if thorough { 1000 } else { 100 }, timeout_s: 3600 });
         }
@@ -251,11 +251,11 @@ fn jobs_for(prop: &str, thorough: bool) -> Vec<Job> {
     if cache_family {
         jobs.insert(0, Job { engine: "corpus", build: "", asan: false, workers: 1, cases: 0, timeout_s: 600 });
         if thorough {
-            jobs.push(Job { engine: "fuzz_cache", build: "fuzz", asan: true, workers: 16, cases: 120_000, timeout_s: 3600 });
+            jobs.push(Job { engine: "fuzz_cache", build: "fuzz", asan: true, workers: 16, cases: 8_000, timeout_s: 2400 });
         }
     }
     else if thorough && prop != "C18" {
-        jobs.push(Job { engine: "fuzz_memsize", build: "fuzz", asan: true, workers: 16, cases: 150_000, timeout_s: 3600 });
+        jobs.push(Job { engine: "fuzz_memsize", build: "fuzz", asan: true, workers: 16, cases: 40_000, timeout_s: 2400 });
     }
     jobs
 }
@@ -265,14 +265,14 @@ fn jobs_for_inner(prop: &str, thorough: bool) -> Vec<Job> {
     let cache = |asan: bool, q: u32, th: u32| Job { engine: "cache", build: "", asan, workers: 16, cases: if t { th } else { q }, timeout_s: if t { 5400 } else { 900 } };
     match prop {
         "C01" | "C02" | "C03" | "C04" | "C05" | "C10" | "C11" | "C13" | "C15" | "C20" =>
-            vec![cache(false, 4000, 12000)],
+            vec![cache(false, 4000, 8000)],
         "C19" => vec![
-            cache(false, 4000, 12000),
+            cache(false, 4000, 8000),
             Job { engine: "shared", build: "", asan: false, workers: 16, cases: if t { 1500 } else { 150 }, timeout_s: 3600 },
             Job { engine: "shared", build: "tsan", asan: false, workers: 16, cases: if t { 1500 } else { 100 }, timeout_s: 3600 },
         ],
         "C06" | "C07" | "C14" =>
-            vec![cache(false, 4000, 12000), cache(true, 600, 3000)],
+            vec![cache(false, 4000, 8000), cache(true, 600, 2000)],
         "C12" => vec![
             Job { engine: "walks", build: "", asan: false, workers: 16, cases: 0, timeout_s: 1800 },
             cache(false, 300, 3000),
@@ -412,12 +412,12 @@ fn run_fuzz_job(prop: &'static str, job: &Job, seed: u64, tmp: &Path, root: &Pat
         if seeds.exists() { cmd.arg(&seeds); }
         cmd.arg(format!("-runs={}", job.cases))
             .arg(format!("-seed={}", (seed % 1_000_000_000) * 32 + i + 1))
-            .arg("-len_control=0").arg("-max_len=1024").arg("-detect_leaks=0")
+            .arg("-len_control=0").arg("-max_len=384").arg("-detect_leaks=0")
             .arg("-print_final_stats=1").arg("-timeout=120").arg("-rss_limit_mb=6000")
             .arg(format!("-max_total_time={}", job.timeout_s))
             .arg(format!("-artifact_prefix={}/w{}-", art.display(), i))
             .env("VERIF_PROP", prop).env("VERIF_ROOT", root).env("VERIF_FUZZ_STATS", &stats)
-            .env("ASAN_OPTIONS", "detect_leaks=0:allocator_may_return_null=1:abort_on_error=0")
+            .env("ASAN_OPTIONS", "detect_leaks=0:allocator_may_return_null=1:abort_on_error=0:quarantine_size_mb=16:malloc_context_size=0")
             .current_dir(&work).stdout(Stdio::null());
         match log { Some(f) => { cmd.stderr(Stdio::from(f)); }, None => { cmd.stderr(Stdio::null()); } }
         match cmd.spawn() {
